@@ -413,6 +413,31 @@ async fn main_task<K: HKey>(spec: SchedSpec) -> SchedOut {
         out.closed_counts = d[..closed].iter().map(|x| x.1).collect();
     }
     out.worker_alive = ctl::with_ctl(|c| c.task_alive("worker"));
+    if spec.cancel.is_none() {
+        // accounting at quiescence against the files (C15 for concurrent histories: whatever the
+        // interleaving was, the counters describe the blobs that exist)
+        let next_id = storage.next_blob_id();
+        let blobs_count = storage.blobs_count().await;
+        let mut detailed = storage.records_count_detailed().await;
+        detailed.sort();
+        let work: Vec<(usize, std::path::PathBuf)> = blobfile::blob_files(&dir);
+        let ids: BTreeSet<usize> = work.iter().map(|x| x.0).chain(blobfile::blob_files(&dir.join("corrupted")).into_iter().map(|x| x.0)).collect();
+        let mut on_disk: Vec<(usize, usize)> = work
+            .iter()
+            .map(|(id, p)| (*id, blobfile::parse(&std::fs::read(p).unwrap_or_default(), World::<K>::key_len()).records.len()))
+            .collect();
+        on_disk.sort();
+        // no fault, no cancellation: every id handed out belongs to a blob file
+        if ids != (0..next_id).collect::<BTreeSet<usize>>() {
+            out.findings.push(finding("accounting.next_blob_id", format!("at quiescence next_blob_id = {next_id}, ids of the blob files {ids:?}")));
+        }
+        if blobs_count != work.len() {
+            out.findings.push(finding("accounting.blobs_count", format!("at quiescence blobs_count = {blobs_count}, blob files in the work directory: {}", work.len())));
+        }
+        if detailed != on_disk {
+            out.findings.push(finding("accounting.records", format!("at quiescence records_count_detailed = {detailed:?}, records per blob file {on_disk:?}")));
+        }
+    }
     if spec.sync_check {
         let a = if storage.has_active_blob().await { storage.records_count_detailed().await.last().map(|x| x.0) } else { None };
         ctl::with_ctl(|c| c.log.borrow_mut().mark(format!("quiescent active={}", a.map_or("none".to_string(), |x| x.to_string()))));
